@@ -353,7 +353,7 @@ fn gen_built(r: &mut Rng) -> Scen {
     // give the map-typed links a second / third train type so that the map really has several keys
     for l in net.iter_mut().skip(1) {
         if l.speed_set.is_none() {
-            let keep = l.speed_sets.get(&tt).cloned().or_else(|| l.speed_sets.values().next().cloned());
+            let keep = l.speed_sets.get(&tt).cloned().or_else(|| l.speed_sets.iter().min_by_key(|kv| *kv.0 as u8).map(|kv| kv.1.clone()));
             if let Some(ss) = keep {
                 for t in [TrainType::Freight, TrainType::Passenger, TrainType::Intermodal, TrainType::Commuter] {
                     let mut s2 = ss.clone();
@@ -391,7 +391,7 @@ fn gen_validate(r: &mut Rng) -> Scen {
     let bad = r.chance(0.6);
     for l in net.iter_mut().skip(1) {
         if l.speed_set.is_none() {
-            if let Some(ss) = l.speed_sets.values().next().cloned() {
+            if let Some(ss) = l.speed_sets.iter().min_by_key(|kv| *kv.0 as u8).map(|kv| kv.1.clone()) {
                 for t in [TrainType::Freight, TrainType::Passenger, TrainType::Intermodal, TrainType::TiltTrain] {
                     l.speed_sets.insert(t, ss.clone());
                 }
